@@ -531,6 +531,8 @@ void do_cfg(const ev::Cmd& c) {
         std::istringstream ss(c.s("warn")); std::string tok;
         while (std::getline(ss, tok, '.')) if (!tok.empty()) cfg.auto_advertise_warnings.push_back(tok[0] == 'w' ? "warning " + tok + ": endpoint mismatch" : kValues[static_cast<size_t>(std::atol(tok.c_str())) % kValues.size()]);
         cfg.auto_advertise_conflict = c.i("conflict", 0) != 0;
+        // warnpad=<n>: the first warning grows by n bytes, which slides every later line break of the value along the wire by n
+        if (c.i("warnpad", 0) > 0 && !cfg.auto_advertise_warnings.empty()) cfg.auto_advertise_warnings.front() += std::string(static_cast<size_t>(c.i("warnpad")), 'x');
     }
     if (c.has("eps")) {
         cfg.advertised_endpoints.clear();
